@@ -212,6 +212,9 @@ def _mode_tests(fnode, param="cutoff_mode"):
             body = "\n".join(src_of(s) for s in n.body)
             if "pow = 2" in body:
                 pow2 = names
+                other = "\n".join(src_of(s) for s in n.orelse)
+                if "pow = 1" not in other and "pow = 2" in other:
+                    pow2 = frozenset(names | {"<else branch also uses power 2>"})
             if "tot * (1 - cutoff)" in body or "target *= " in body:
                 rel = names
     return handled, pow2, rel
